@@ -11,7 +11,8 @@ Ghost history: accepted sends, the writer's log (what reached the wire), decoded
 frames, offered errors, panics, a flag for a second successful CAS.
 
 It models the code AFTER the repairs of D2 (flush drains until `default`), D3 (read lock around check+send,
-CAS under the write lock) and D4 (the reader's inbound send selects on `done`).  Core-only.
+CAS under the write lock), D4 (the reader's inbound send selects on `done`) and of the graceful Close that no
+longer shuts the receive side (the reader is woken by a read deadline in the past and re-checks `done`).  Core-only.
 
 Every place the real code would panic is an explicit outcome (`panics`), never a disabled action:
 send on a closed queue, close of a closed / nil channel, negative WaitGroup, nil connection, Go twice.
@@ -91,15 +92,17 @@ inductive CPc
   | lock | cas | unlockLost | won | returned (won : Bool)
 deriving DecidableEq, Repr, Hashable, Inhabited
 
-/-- `readPump`: readPacket; select{inbound<-pkt | <-done}; testShouldExit; on error ForceClose(err); wg.Done -/
+/-- `readPump`: readPacket = SetReadDeadline(future) [`arm`]; testShouldExit [`chk`]; read+decode [`reading`];
+  select{inbound<-pkt | <-done}; testShouldExit; on error ForceClose(err); wg.Done -/
 inductive RPc
-  | idle | reading | deliver (p : Pkt) | checkExit | closing (e : Err) (c : CPc) | wgDone | exited
+  | idle | arm | chk | reading | deliver (p : Pkt) | checkExit | closing (e : Err) (c : CPc) | wgDone | exited
 deriving DecidableEq, Repr, Hashable, Inhabited
 
-/-- the code after a successful CAS: Unlock; CloseRead; close(done); notifyErr; [go] finally =
+/-- the code after a successful CAS: Unlock; ForceClose: CloseRead; close(done); Close: SetReadDeadline(now)
+  [`setDl`; the graceful Close does NOT shut the receive side]; notifyErr; [go] finally =
   wg.Wait; CloseWrite; state=Terminated; close(outbound) [H2 finally.closed]; fields = nil -/
 inductive WinPc
-  | unlock | closeRead | closeDone | notify | spawn | wait | shutWrite | setTerm | closeOut | clear | finished | dead
+  | unlock | closeRead | closeDone | setDl | notify | spawn | wait | shutWrite | setTerm | closeOut | clear | finished | dead
 deriving DecidableEq, Repr, Hashable, Inhabited
 
 structure Winner where
@@ -127,7 +130,8 @@ structure State where
   out : List Pkt := []            -- buffered content of the outbound queue
   done : Bool := false            -- `done` is closed
   wg : Nat := 0
-  readShut : Bool := false        -- CloseRead happened
+  readShut : Bool := false        -- CloseRead happened (ForceClose only: the graceful Close leaves the receive side open)
+  rdl : Bool := false             -- the read deadline of the socket is in the past (set by the graceful Close, re-armed by the reader)
   writeShut : Bool := false       -- CloseWrite happened: the peer sees end-of-stream after `wire`
   cleared : Bool := false         -- finally set inbound / errChan / conn to nil
   broken : Bool := false          -- the peer reset the connection: writes may fail
@@ -206,7 +210,7 @@ def Winner.returnable (w : Winner) : Bool :=
 
 /-- `Go(EndpointReadWriter)`, atomic: CAS Init->Running (panic otherwise), wg.Add ×2, both pumps started -/
 def stepStart (s : State) : Option State :=
-  if s.st = .init then some { s with st := .running, wg := s.wg + 2, w := .select, r := .reading }
+  if s.st = .init then some { s with st := .running, wg := s.wg + 2, w := .select, r := .arm }
   else some { s with panics := s.panics ++ [.goTwice] }
 
 /-- a goroutine calls SendPacket(p): a new caller, or one whose previous call has returned -/
@@ -268,11 +272,14 @@ def stepWin (cfg : Cfg) (s : State) : Option State :=
   | none => none
   | some w =>
     match w.pc with
-    | .unlock => some (setWin s w .closeRead)
+    | .unlock => some (setWin s w (if w.graceful then .closeDone else .closeRead))
     | .closeRead => some (setWin (if s.cleared then s else { s with readShut := true }) w .closeDone)
     | .closeDone =>
       if s.done then some (setWin { s with panics := s.panics ++ [.closeOfClosed] } w .dead)
-      else some (setWin { s with done := true } w .notify)
+      else some (setWin { s with done := true } w (if w.graceful then .setDl else .notify))
+    | .setDl =>
+      if s.cleared then some (setWin { s with panics := s.panics ++ [.nilConn] } w .dead)
+      else some (setWin { s with rdl := true } w .notify)
     | .notify =>
       let next := if w.graceful then WinPc.wait else WinPc.spawn
       if s.cleared then some (setWin s w next)
@@ -348,38 +355,51 @@ def stepWWgDone (s : State) : Option State :=
 
 /-! reader pump -/
 
-def stepRFrame (s : State) : Option State :=
-  match s.r, s.peerIn with
-  | .reading, .frame p :: rest =>
-    if s.cleared then none else
-    some { s with r := .deliver p, peerIn := rest, decoded := s.decoded ++ [p],
-                  recvPkts := s.recvPkts + 1, recvBytes := s.recvBytes + p.size }
-  | _, _ => none
-
-/-- a read fails: after CloseRead; at a FIN (io.EOF); at garbage (decode error); after a reset — which the
-  reader sees as an error, or as io.EOF when the writer's failing write consumed the socket error first -/
-def readFails (s : State) (eof : Bool) : Bool :=
-  s.readShut || s.peerIn.contains .rst ||
-  (if eof then s.peerIn.head? == some .fin else s.peerIn.head? == some .garbage)
-
-def stepRErr (s : State) (eof : Bool) : Option State :=
+/-- `readPacket`, first half: `t.conn.SetReadDeadline(now + TConnReadTimeout)` — a deadline in the future again -/
+def stepRArm (s : State) : Option State :=
   match s.r with
-  | .reading =>
-    if s.cleared then none else
-    if readFails s eof then
-      some { s with r := .closing (if eof then .eof else .read) .lock }
-    else none
-  | _ => none
-
-def stepRTimeout (s : State) : Option State :=
-  match s.r with
-  | .reading => if s.cleared then none else some { s with r := .closing .read .lock }
+  | .arm => if s.cleared then none else some { s with r := .chk, rdl := false }
   | _ => none
 
 /-- `t.conn.SetReadDeadline` on the nil connection -/
 def stepRNil (s : State) : Option State :=
   match s.r with
-  | .reading => if s.cleared then some { s with r := .exited, panics := s.panics ++ [.nilConn] } else none
+  | .arm => if s.cleared then some { s with r := .exited, panics := s.panics ++ [.nilConn] } else none
+  | _ => none
+
+/-- `readPacket`, second half: after arming, look at `done` (a graceful Close closes `done` first and sets a
+  deadline in the past afterwards: either this check sees `done`, or that deadline is the later write) -/
+def stepRChk (s : State) : Option State :=
+  match s.r with
+  | .chk => some { s with r := if s.done then .closing .read .lock else .reading }
+  | _ => none
+
+def stepRFrame (s : State) : Option State :=
+  match s.r, s.peerIn with
+  | .reading, .frame p :: rest =>
+    some { s with r := .deliver p, peerIn := rest, decoded := s.decoded ++ [p],
+                  recvPkts := s.recvPkts + 1, recvBytes := s.recvBytes + p.size }
+  | _, _ => none
+
+/-- a read fails: after CloseRead; when the deadline is in the past; at a FIN (io.EOF); at garbage (decode
+  error); after a reset — which the reader sees as an error, or as io.EOF when the writer's failing write
+  consumed the socket error first -/
+def readFails (s : State) (eof : Bool) : Bool :=
+  s.readShut || s.rdl || s.peerIn.contains .rst ||
+  (if eof then s.peerIn.head? == some .fin else s.peerIn.head? == some .garbage)
+
+def stepRErr (s : State) (eof : Bool) : Option State :=
+  match s.r with
+  | .reading =>
+    if readFails s eof then
+      some { s with r := .closing (if eof then .eof else .read) .lock }
+    else none
+  | _ => none
+
+/-- the read deadline (TConnReadTimeout) expires: decided by the environment -/
+def stepRTimeout (s : State) : Option State :=
+  match s.r with
+  | .reading => some { s with r := .closing .read .lock }
   | _ => none
 
 def stepRPush (cfg : Cfg) (s : State) : Option State :=
@@ -397,7 +417,7 @@ def stepRDrop (s : State) : Option State :=
 
 def stepRCheck (s : State) : Option State :=
   match s.r with
-  | .checkExit => some { s with r := if s.done then .wgDone else .reading }
+  | .checkExit => some { s with r := if s.done then .wgDone else .arm }
   | _ => none
 
 def stepRClose (s : State) : Option State :=
@@ -440,7 +460,7 @@ inductive Action
   -- internal steps of the goroutines
   | snd (i : Nat) | cls (j : Nat) | win
   | wRecv | wDone | wWrite (ok : Bool) | wFlush | wWgDone
-  | rFrame | rErr (eof : Bool) | rNil | rPush | rDrop | rCheck | rClose | rWgDone
+  | rArm | rChk | rFrame | rErr (eof : Bool) | rNil | rPush | rDrop | rCheck | rClose | rWgDone
   | inbPop | errPop
 deriving DecidableEq, Repr, Inhabited
 
@@ -462,6 +482,8 @@ def step (cfg : Cfg) (s : State) : Action → Option State
   | .wWgDone => stepWWgDone s
   | .rFrame => stepRFrame s
   | .rErr eof => stepRErr s eof
+  | .rArm => stepRArm s
+  | .rChk => stepRChk s
   | .rNil => stepRNil s
   | .rPush => stepRPush cfg s
   | .rDrop => stepRDrop s
